@@ -29,7 +29,9 @@ Theorem C10_nested_restarts : forall st n limit body xs,
   ev1 st (ONested n limit body) xs = [(0, seq_loop (Z.to_nat (Z.max n 1)) 0 n limit 0 body xs)].
 Proof. exact ev1_nested. Qed.
 
-(** loops inside whole pipelines: C01_transparency covers PReplay / PIterate / ONested *)
+(** loops inside whole pipelines: C01_transparency covers PReplay / PIterate / ONested, and
+    bodies that join with a side input defined outside the loop ([OJoinSide]: every round may
+    see another distribution of the cached side input) *)
 Theorem C10_in_pipelines : forall (p : pipe) (d : dist), dexec p d -> Permutation (flat d) (denote p).
 Proof. exact dexec_sound. Qed.
 
@@ -67,6 +69,13 @@ Example C10_bound_zero_runs_once :
 Proof. vm_compute. reflexivity. Qed.
 Example C10_state_feeds_next_round :
   denote (PReplay (PSrc true [(0, 1); (0, 2)]) 3 1000 [OAddState]) = [(0, 39)].
+Proof. vm_compute. reflexivity. Qed.
+
+(** a side input joined inside the body is the same in every round; the left side moves with
+    the state *)
+Example C10_side_input_in_loop :
+  denote (PReplay (PSrc true [(1, 5); (3, 7)]) 2 1000000 [OAddState; OJoinSide JvInner LoHash [(1, 10)]])
+  = [(0, 131697)].
 Proof. vm_compute. reflexivity. Qed.
 
 Print Assumptions C10_leader.
